@@ -42,3 +42,51 @@ func exemptC02(f *ssa.Function) bool {
 	n := f.String()
 	return strings.Contains(n, "lib/call.call$") && f.Parent() != nil && f.Parent().Name() == "call" && strings.HasSuffix(n, "$7")
 }
+
+// ---------------------------------------------------------------------------
+// C04: evaluation never panics into the host
+
+var c04Funcs = []string{
+	"lisp.EVAL", "lisp.eval_ast", "lisp.do", "lisp.macroexpand", "lisp.is_macro_call", "lisp.quasiquote", "lisp.qq_loop",
+	"lisp.starts_with", "lisp.first",
+	"env._newEnv", "env._newSubordinateEnv", "env._newSubordinateEnvWithBinds", "env.NewEnv", "env.NewSubordinateEnv", "env.NewSubordinateEnvWithBinds",
+	"(*env.Env).Find", "(*env.Env).FindNT", "(*env.Env).Get", "(*env.Env).GetNT", "(*env.Env).Set", "(*env.Env).SetNT", "(*env.Env).Remove", "(*env.Env).RemoveNT",
+	"types.Apply", "types.GetSlice", "(types.MalFunc).SetMacro", "(types.MalFunc).GetMacro",
+	"lisperror.GetPosition", "lisperror.NewLispError", "lisperror.NewGoError", "(lisperror.LispError).ErrorValue", "(lisperror.LispError).Unwrap",
+	"(lisperror.LispError).Error", "(lisperror.LispError).Position",
+	"lib/call.call$1", "lib/call.call$2", "lib/call.call$3", "lib/call.call$4", "lib/call.call$5", "lib/call.call$6", "lib/call._recover",
+	"lib/core/nscore.Load$1", "lib/core/nscore.LoadInput$1",
+}
+
+func init() {
+	register(&Property{
+		ID: "C04", Level: "proof", Technique: "contract-based deductive verification: no-panic obligations (index, slice bounds, type assertion, nil map, nil dereference, nil func, explicit panic) for every instruction of the evaluator, scope chain, error wrapper and binder wrappers under thin safety contracts; callee preconditions and the MalFunc/Func data invariant discharged at every call and construction site",
+		DesignRef: "DESIGN.md §4 C04",
+		Explain:   "EVAL and everything it calls in Go (eval_ast, do, macroexpand, quasiquote, scopes, Apply, error wrapper) carries `panics never`; builtins are reached only through Func.Fn whose field contract `panics never` is discharged on the six recover-protected wrapper closures of call.call and on every other Func literal",
+		Run:       runC04,
+	})
+}
+
+func (c *CheckCtx) jobsFor(names []string, mk func(f *ssa.Function) *Job) []*Job {
+	var jobs []*Job
+	for _, n := range names {
+		f := c.eng.lookupFunc(n)
+		if f == nil {
+			c.machineryErrors = append(c.machineryErrors, "function under contract not found: "+n)
+			continue
+		}
+		jobs = append(jobs, mk(f))
+	}
+	return jobs
+}
+
+func runC04(c *CheckCtx) {
+	jobs := c.jobsFor(c04Funcs, func(f *ssa.Function) *Job {
+		return &Job{Fn: f, PanicMode: "obligation", TypeInv: true}
+	})
+	c.runJobs(jobs, func(o *Obligation) bool {
+		return strings.HasPrefix(o.Kind, "nopanic/") || o.Kind == "pre" || o.Kind == "typeinv" || o.Kind == "post" || strings.HasPrefix(o.Kind, "inv-")
+	})
+	c.assumptions["A-ENV: every EnvType is a *env.Env built by the env constructors (validEnv); every MalFunc has non-nil Eval/GenEnv and a valid Env, every Func a non-nil Fn (data invariant, checked at every construction site in the functions under contract)"] = true
+	c.assumptions["stack exhaustion and non-termination are outside the property (statement)"] = true
+}
